@@ -134,6 +134,10 @@ def cadence_items(tier):
     for off in offs:
         for n in lens:
             out.append({'start': (FIRST + datetime.timedelta(days=off)).isoformat(), 'bdays': n})
+    # long sessions with a burn-in well after the start (the usual way signals are used): the closes BEFORE the burn-in
+    # are observations too - the first values read after it must already span them
+    for off, n, burn in ((0, 22, 16), (2, 22, 13)) if tier == 'quick' else ((0, 22, 16), (2, 22, 13), (5, 30, 20), (6, 30, 25), (1, 24, 23)):
+        out.append({'start': (FIRST + datetime.timedelta(days=off)).isoformat(), 'bdays': n, 'burn': burn})
     return out
 
 
@@ -146,12 +150,18 @@ def cadence_cfgs(item):
     variants.append(('before_start', start - datetime.timedelta(days=2)))
     variants.append(('after_end', end + datetime.timedelta(days=1)))
     variants.append(('never', None))
-    for k, d in enumerate(days):
-        variants.append(('day%d_at_close' % k, rm.utc(d, 21, 0)))
-        variants.append(('day%d_after_close' % k, rm.utc(d, 21, 0, 1)))
-        variants.append(('day%d_at_open' % k, rm.utc(d, 14, 30)))
+    burn = None
+    if item.get('burn') is not None:
+        burn = rm.utc(days[item['burn']], 0, 0).isoformat()
+        variants = [('static', None), ('never', None), ('day3_at_close', rm.utc(days[3], 21, 0)),
+                    ('day%d_after_close' % (item['burn'] - 2), rm.utc(days[item['burn'] - 2], 21, 0, 1))]
+    else:
+        for k, d in enumerate(days):
+            variants.append(('day%d_at_close' % k, rm.utc(d, 21, 0)))
+            variants.append(('day%d_after_close' % k, rm.utc(d, 21, 0, 1)))
+            variants.append(('day%d_at_open' % k, rm.utc(d, 14, 30)))
     for label, entry in variants:
-        cfg = {'start': start.isoformat(), 'end': end.isoformat(), 'burn_in': None, 'assets': ['EQ:AAA', 'EQ:BBB'],
+        cfg = {'start': start.isoformat(), 'end': end.isoformat(), 'burn_in': burn, 'assets': ['EQ:AAA', 'EQ:BBB'],
                'alpha': {'kind': 'fixed', 'weights': {'EQ:AAA': 1.0}}, 'rebalance': 'daily', 'weekday': None,
                'long_only': True, 'buffer': 0.05, 'fee': ['zero'], 'cash': 10007.31, 'signals': {'lookbacks': [12, 2, 1]}}
         if label == 'static':
@@ -192,7 +202,10 @@ def check_cadence(label, entry, days, cfg, market, handler):
     seen = {}
     for dt, name, asset, n, v in (obs.probe or []):
         seen[(rm._parse(str(dt)), name, asset, n)] = v
+    burn = rm._parse(cfg['burn_in']) if cfg.get('burn_in') else None
     for t in closes:
+        if burn is not None and t < burn:
+            continue          # no rebalance, hence no reading, before the burn-in; the closes still count as observations
         for asset in ('EQ:AAA', 'EQ:BBB'):
             e = ent[asset]
             if e is None or t < e:
